@@ -83,8 +83,67 @@ func buildForest(c *vcore.Ctx, root string) *c02forest {
 	return f
 }
 
-func (f *c02forest) genPath(c *vcore.Ctx) string {
+// walkPath builds a path the kernel can resolve, by walking the real forest from base (relative
+// to root; "" = an absolute path from root): at every step one entry of the directory reached so
+// far (or "." / "..") is taken, links are followed as the kernel would, and the walk ends at the
+// first non-directory. Random strings mostly fail with ENOENT/ENOTDIR and fall outside the
+// property's quantifier; these do not.
+func (f *c02forest) walkPath(c *vcore.Ctx, base string) string {
 	src := c.Src
+	cur := filepath.Join(f.root, base)
+	n := 1 + src.Int(5, "wsteps")
+	var parts []string
+	inDir := true
+	for i := 0; i < n; i++ {
+		names := []string{".", ".."}
+		if ents, err := os.ReadDir(cur); err == nil {
+			for _, e := range ents {
+				names = append(names, e.Name())
+				if e.Type()&os.ModeSymlink != 0 {
+					names = append(names, e.Name()) // links twice: they are what the property is about
+				}
+			}
+		}
+		name := names[src.Int(len(names), "wname")]
+		parts = append(parts, name)
+		inDir = false
+		next, err := filepath.EvalSymlinks(filepath.Join(cur, name))
+		if err != nil {
+			break // dangling or looping link: ends the walk
+		}
+		fi, err := os.Stat(next)
+		if err != nil || !fi.IsDir() {
+			break
+		}
+		cur, inDir = next, true
+	}
+	if src.Bool(1, 8, "wnew") && inDir {
+		parts = append(parts, "new") // a name that does not exist yet below the directory reached (creation)
+	}
+	sep := "/"
+	if src.Bool(1, 8, "wdslash") {
+		sep = "//"
+	}
+	p := strings.Join(parts, sep)
+	if base == "" {
+		return f.root + "/" + p
+	}
+	if src.Bool(1, 4, "wdot") {
+		p = "./" + p
+	}
+	return p
+}
+
+// genPath draws a path string; base is the directory (relative to root) that relative paths of
+// this call start from.
+func (f *c02forest) genPath(c *vcore.Ctx, base string) string {
+	src := c.Src
+	switch src.Int(4, "pathgen") {
+	case 0:
+		return f.walkPath(c, base)
+	case 1:
+		return f.walkPath(c, "")
+	}
 	n := 1 + src.Int(5, "ncomp")
 	var parts []string
 	for i := 0; i < n; i++ {
@@ -239,12 +298,28 @@ func c02Run(c *vcore.Ctx) *vcore.Violation {
 	flagWords := []uint64{0, 0, uint64(syscall.O_WRONLY), uint64(syscall.O_RDWR), uint64(syscall.O_CREAT), uint64(syscall.O_CREAT | syscall.O_EXCL), uint64(syscall.O_TRUNC),
 		uint64(syscall.O_RDWR | syscall.O_APPEND), unix.O_PATH, uint64(syscall.O_NOFOLLOW), uint64(syscall.O_DIRECTORY), uint64(syscall.O_WRONLY | syscall.O_CREAT | syscall.O_TRUNC), uint64(syscall.O_CLOEXEC | syscall.O_NONBLOCK)}
 
+	baseOf := func(v uint64) string {
+		switch int32(uint32(v)) {
+		case 3:
+			return d3rel
+		case 4:
+			return d4rel
+		}
+		return cwdRel
+	}
+	// dirfd draws are made before the path, so that the path generator knows where a relative
+	// path starts; pending* hold them for the call being generated
 	gen := func() *c02sys {
-		p := f.genPath(c)
-		P := "s:" + p
 		kind := src.Pick("sys", "open", "openat", "openat2", "stat", "lstat", "newfstatat", "statx", "access", "faccessat", "faccessat2", "readlink", "readlinkat",
 			"unlink", "unlinkat", "rename", "renameat", "renameat2", "linkat", "symlinkat", "mkdirat", "mknodat", "chmod", "fchmodat", "execve", "execveat", "openat", "open", "newfstatat")
 		s := &c02sys{name: kind, args: [6]string{"0", "0", "0", "0", "0", "0"}}
+		atKind := strings.HasSuffix(kind, "at") || strings.HasSuffix(kind, "at2") || kind == "statx"
+		enc, v := "-100", uint64(0xffffffffffffff9c)
+		if atKind {
+			enc, v = dfdEnc()
+		}
+		p := f.genPath(c, baseOf(v))
+		P := "s:" + p
 		one := func(class string, strict bool, useDfd bool, dfd uint64, follow bool) {
 			s.expect = append(s.expect, c02expect{class: class, strict: strict, dfd: dfd, useDfd: useDfd, path: p, follow: follow, what: kind})
 		}
@@ -262,13 +337,11 @@ func c02Run(c *vcore.Ctx) *vcore.Violation {
 			one(cl, strict, false, 0, openFollow(fl))
 		case "openat":
 			fl := flagWords[src.Int(len(flagWords), "flags")]
-			enc, v := dfdEnc()
 			s.nr, s.args[0], s.args[1], s.args[2] = 257, enc, P, fmt.Sprint(fl)
 			cl, strict := openClass(fl)
 			one(cl, strict, true, v, openFollow(fl))
 		case "openat2":
 			fl := flagWords[src.Int(len(flagWords), "flags")]
-			enc, v := dfdEnc()
 			how := "h:" + fmt.Sprint(fl)
 			cl, strict := openClass(fl)
 			if src.Bool(1, 6, "badhow") {
@@ -283,12 +356,10 @@ func c02Run(c *vcore.Ctx) *vcore.Violation {
 			s.nr, s.args[0], s.args[1] = 6, P, "buf"
 			one("stat", true, false, 0, false)
 		case "newfstatat":
-			enc, v := dfdEnc()
 			fl, follow := atFlag(0x100)
 			s.nr, s.args[0], s.args[1], s.args[2], s.args[3] = 262, enc, P, "buf", fl
 			one("stat", true, true, v, follow)
 		case "statx":
-			enc, v := dfdEnc()
 			fl, follow := atFlag(0x100)
 			s.nr, s.args[0], s.args[1], s.args[2], s.args[3], s.args[4] = 332, enc, P, fl, "0x7ff", "buf"
 			one("stat", true, true, v, follow)
@@ -296,11 +367,9 @@ func c02Run(c *vcore.Ctx) *vcore.Violation {
 			s.nr, s.args[0], s.args[1] = 21, P, "4"
 			one("stat", true, false, 0, true)
 		case "faccessat":
-			enc, v := dfdEnc()
 			s.nr, s.args[0], s.args[1], s.args[2] = 269, enc, P, "4"
 			one("stat", true, true, v, true)
 		case "faccessat2":
-			enc, v := dfdEnc()
 			fl, follow := atFlag(0x100)
 			s.nr, s.args[0], s.args[1], s.args[2], s.args[3] = 439, enc, P, "4", fl
 			one("stat", true, true, v, follow)
@@ -308,25 +377,22 @@ func c02Run(c *vcore.Ctx) *vcore.Violation {
 			s.nr, s.args[0], s.args[1], s.args[2] = 89, P, "buf", "4096"
 			one("read", true, false, 0, false)
 		case "readlinkat":
-			enc, v := dfdEnc()
 			s.nr, s.args[0], s.args[1], s.args[2], s.args[3] = 267, enc, P, "buf", "4096"
 			one("read", true, true, v, false)
 		case "unlink":
 			s.nr, s.args[0] = 87, P
 			one("write", true, false, 0, false)
 		case "unlinkat":
-			enc, v := dfdEnc()
 			s.nr, s.args[0], s.args[1] = 263, enc, P
 			one("write", true, true, v, false)
 		case "rename":
-			p2 := f.genPath(c)
+			p2 := f.genPath(c, cwdRel)
 			s.nr, s.args[0], s.args[1] = 82, P, "s:"+p2
 			one("write", true, false, 0, false)
 			s.expect = append(s.expect, c02expect{class: "write", strict: true, path: p2, what: kind + "(new)"})
 		case "renameat", "renameat2":
-			p2 := f.genPath(c)
-			enc, v := dfdEnc()
 			enc2, v2 := dfdEnc()
+			p2 := f.genPath(c, baseOf(v2))
 			s.nr = 264
 			if kind == "renameat2" {
 				s.nr = 316
@@ -335,9 +401,8 @@ func c02Run(c *vcore.Ctx) *vcore.Violation {
 			one("write", true, true, v, false)
 			s.expect = append(s.expect, c02expect{class: "write", strict: true, useDfd: true, dfd: v2, path: p2, what: kind + "(new)"})
 		case "linkat":
-			p2 := f.genPath(c)
-			enc, v := dfdEnc()
 			enc2, v2 := dfdEnc()
+			p2 := f.genPath(c, baseOf(v2))
 			fl, follow := "0", false
 			if src.Bool(1, 2, "linkfollow") {
 				fl, follow = "0x400", true
@@ -346,29 +411,24 @@ func c02Run(c *vcore.Ctx) *vcore.Violation {
 			one("write", true, true, v, follow)
 			s.expect = append(s.expect, c02expect{class: "write", strict: true, useDfd: true, dfd: v2, path: p2, what: kind + "(new)"})
 		case "symlinkat":
-			enc, v := dfdEnc()
 			s.nr, s.args[0], s.args[1], s.args[2] = 266, "s:some-target", enc, P
 			one("write", true, true, v, false)
 		case "mkdirat":
-			enc, v := dfdEnc()
 			s.nr, s.args[0], s.args[1], s.args[2] = 258, enc, P, "0755"
 			one("write", true, true, v, false)
 		case "mknodat":
-			enc, v := dfdEnc()
 			s.nr, s.args[0], s.args[1], s.args[2] = 259, enc, P, "0100644"
 			one("write", true, true, v, false)
 		case "chmod":
 			s.nr, s.args[0], s.args[1] = 90, P, "0644"
 			one("write", true, false, 0, true)
 		case "fchmodat":
-			enc, v := dfdEnc()
 			s.nr, s.args[0], s.args[1], s.args[2] = 268, enc, P, "0644"
 			one("write", true, true, v, true)
 		case "execve":
 			s.nr, s.args[0] = 59, P
 			one("read", true, false, 0, true)
 		case "execveat":
-			enc, v := dfdEnc()
 			fl, follow := atFlag(0x100)
 			s.nr, s.args[0], s.args[1], s.args[4] = 322, enc, P, fl
 			one("read", true, true, v, follow)
@@ -479,6 +539,6 @@ func init() {
 		Components: kComponents, Assumptions: append([]string{"a consultation CheckSyscall(\"procfs-path\") instead of a path query is accepted for procfs object references (explicit fail-closed policy)", "calls whose kernel resolution fails are outside the quantifier"}, kAssume...), NeedNS: true,
 		Quick:    vcore.Budget{Wall: 30 * time.Second, Shards: 16},
 		Thorough: vcore.Budget{Wall: 12 * time.Minute, Shards: 16},
-		Init:     kInit, Run: c02Run, StallLimit: 120 * time.Second,
+		Init:     kInitUnpriv, Run: c02Run, StallLimit: 120 * time.Second,
 	})
 }
